@@ -15,7 +15,7 @@ class AnchorMissing(Exception):
 
 class Body:
     __slots__ = ("raw", "crate", "key", "path", "kind", "blocks", "locals", "arg_count", "types",
-                 "span", "vis", "name", "prog", "_calls", "_cfg")
+                 "span", "vis", "name", "prog", "_calls", "_cfg", "_live")
 
     def __init__(self, raw, crate, types, prog):
         self.raw = raw
@@ -33,6 +33,7 @@ class Body:
         self.prog = prog
         self._calls = None
         self._cfg = None
+        self._live = None
 
     # ---- types
     def ty(self, ix):
